@@ -183,10 +183,11 @@ Proof.
       intros H; inversion H; reflexivity.
     - intros H; inversion H; reflexivity.
     - unfold decode_literal. destruct k as [|tg|id].
-      + intros H; inversion H; reflexivity.
-      + destruct (is_nil tg); intros H; inversion H; reflexivity.
+      + unfold bind. destruct (mk_literal ig lex None None); [|discriminate]. intros H; inversion H; reflexivity.
+      + unfold bind. destruct (mk_literal ig lex _ None); [|discriminate]. intros H; inversion H; reflexivity.
       + destruct (nlen _ =? 0); [discriminate|]. unfold lift, bind.
         destruct (decode_datatype_term_index id (ds_datatypes st0)) as [[d' dt]|]; [|discriminate].
+        destruct (mk_literal ig lex None (Some dt)); [|discriminate].
         intros H; inversion H; reflexivity.
     - intros H; inversion H; reflexivity.
     - unfold bind.
@@ -218,13 +219,13 @@ Proof.
 Qed.
 
 (* datatype 0, and a datatype reference while the table is disabled *)
-Theorem reject_datatype_zero lex st : exists e, decode_literal lex (LkDt 0) st = Err e.
+Theorem reject_datatype_zero lex st : exists e, decode_literal ig lex (LkDt 0) st = Err e.
 Proof.
   unfold decode_literal. destruct (nlen _ =? 0); [eauto|].
   unfold decode_datatype_term_index. cbn. eauto.
 Qed.
 Theorem reject_datatype_disabled lex id st :
-  d_data (ds_datatypes st) = [] -> exists e, decode_literal lex (LkDt id) st = Err e.
+  d_data (ds_datatypes st) = [] -> exists e, decode_literal ig lex (LkDt id) st = Err e.
 Proof. intros H. unfold decode_literal. rewrite H. cbn. eauto. Qed.
 
 (* a repeated-term marker inside a quoted triple *)
